@@ -6,6 +6,7 @@ import Pfl.Oracle.RegOps
 import Pfl.Model.Names
 import Pfl.Model.Minimize
 import Pfl.Model.Hopcroft
+import Pfl.Model.FAObject
 open Lean Pfl
 namespace PflDrv
 
@@ -63,6 +64,40 @@ def jSum : Nat ⊕ String → Json
   | .inl n => jNat n
   | .inr s => jStr s
 
+/-- a mutator call of a history on an automaton object (`Pfl/Model/FAObject.lean`) -/
+def asFAObjOp (j : Json) : R FAObj.Op := do
+  match ← asArr j with
+  | [k, q, a, r] => match ← asStr k with
+    | "add_t" => pure (.addT (← asNat q) (← asOptNat a) (← asNat r))
+    | "rm_t" => pure (.remT (← asNat q) (← asOptNat a) (← asNat r))
+    | o => throw s!"bad automaton object op {o}"
+  | [k, q] => match ← asStr k with
+    | "add_s" => pure (.addStart (← asNat q))
+    | "rm_s" => pure (.remStart (← asNat q))
+    | "add_f" => pure (.addFinal (← asNat q))
+    | "rm_f" => pure (.remFinal (← asNat q))
+    | "add_y" => pure (.addSym (← asNat q))
+    | o => throw s!"bad automaton object op {o}"
+  | _ => throw "bad automaton object op"
+
+def jFAObj (o : FAObj.Obj) : Json :=
+  Json.mkObj [("states", jNatList o.states), ("syms", jNatList o.syms), ("starts", jNatList o.starts),
+    ("finals", jNatList o.finals),
+    ("trans", jList (fun (e : Nat × List (Option Nat × List Nat)) =>
+      Json.arr #[jNat e.1, jList (fun (f : Option Nat × List Nat) => Json.arr #[jOpt jNat f.1, jNatList f.2]) e.2]) o.trans),
+    ("num", jNat (FAObj.numTransitions o.trans)), ("tfdet", jBool (FAObj.tfDeterministic o.trans)),
+    ("edges", jList (fun (t : Nat × Option Nat × Nat) => Json.arr #[jNat t.1, jOpt jNat t.2.1, jNat t.2.2]) (FAObj.edges o.trans))]
+
+/-- a history on one object: after every call the returned integer (or the exception) and the object -/
+def faObjRun : FAObj.Obj → List FAObj.Op → List Json
+  | _, [] => []
+  | o, op :: ops =>
+    match FAObj.step o op with
+    | .ok (o', n) => Json.mkObj [("out", jNat n), ("obj", jFAObj o')] :: faObjRun o' ops
+    | .error e => Json.mkObj [("err", jStr (match e with
+        | .epsilon => "InvalidEpsilonTransition" | .duplicate => "DuplicateTransitionError")), ("obj", jFAObj o)]
+        :: faObjRun o ops
+
 def faHandle (op : String) (j : Json) : R Json := do
   match op with
   | "fa.accepts" =>
@@ -72,6 +107,10 @@ def faHandle (op : String) (j : Json) : R Json := do
     let f := match cls with
       | "E" => A.acceptsE | "N" => A.acceptsN | _ => A.acceptsD
     pure (jList jBool (ws.map f))
+  | "fa.objRun" =>   -- model of an automaton object edited through its API (C19)
+    let det ← asBool (← field j "det")
+    let ops ← (← asArr (← field j "ops")).mapM asFAObjOp
+    pure (Json.arr (faObjRun (FAObj.new det) ops).toArray)
   | "fa.member" =>   -- oracle: spec-level membership (acceptsE is proved equal to Lang)
     let A ← asENFA (← field j "A")
     checkWF A
